@@ -249,6 +249,9 @@ def run(ctx):
                 cov["evaluations"] += 1
                 scn = req
                 viol, mach, drift = judge(scn, r)
+                if mach and all("stale-shape:" in m for m in mach):
+                    cov["stale_shapes_not_constructible"] = cov.get("stale_shapes_not_constructible", 0) + 1
+                    return
                 if mach:
                     mach_errors.extend(mach)
                     return
